@@ -188,9 +188,11 @@ func (s *CollapsingHighestDenseStore) Clear() {
 }
 
 func (s *CollapsingHighestDenseStore) Reweight(w float64) error {
+	maxIndex := s.maxIndex
 	err := s.DenseStore.Reweight(w)
-	if s.IsEmpty() {
-		// All the counts may have underflowed to zero.
+	if s.IsEmpty() || s.maxIndex != maxIndex {
+		// The counts of the highest bins, which the collapsed bin is one of, may
+		// have underflowed to zero (possibly all the counts).
 		s.isCollapsed = false
 	}
 	return err
